@@ -175,13 +175,21 @@ def run_coq_cases(work, header, run_fn, case_type, terms, shard=400, tag="cases"
             if rc != 0:
                 errors.append((k, out[-1500:]))
                 continue
-            # first "= ..." block is the report
-            m = re.search(r"=\s*(\[.*?\])\s*(?:%\w+)?\s*:\s*list", out, re.S)
-            if not m:
-                errors.append((k, "unparsable coqc output: " + out[-800:]))
+            # the report is printed as  = (N, K, [(i, c); ...])  : Z * Z * list (Z * Z)
+            flat = re.sub(r"%[A-Za-z_]+|\s+", "", out)
+            m = re.search(r"=\((\d+),(\d+),\[(.*?)\]\):Z\*Z\*list\(Z\*Z\)", flat)
+            nshard = min(shard, len(terms) - k)
+            if not m or int(m.group(1)) != nshard:
+                errors.append((k, "unparsable or incomplete coqc report: " + out[-800:]))
                 continue
-            for i, c in REPORT_RE.findall(m.group(1)):
+            pairs = re.findall(r"\((-?\d+),(-?\d+)\)", m.group(3))
+            if len(pairs) != min(40, int(m.group(2))):
+                errors.append((k, "report list does not match its count: " + out[-800:]))
+                continue
+            for i, c in pairs:
                 bad[k + int(i)] = int(c)
+            if int(m.group(2)) > 40:
+                raw["truncated"] = raw.get("truncated", 0) + int(m.group(2)) - 40
     return bad, errors, raw
 
 def coq_eval(work, header, expr, name="probe"):
